@@ -417,9 +417,9 @@ const selfBase = 100000
 func counts(mode string, thorough bool) (nFrag, nAPI int) {
 	switch {
 	case mode == "lin" && !thorough:
-		nFrag, nAPI = 26, 14
+		nFrag, nAPI = 30, 14
 	case mode == "lin":
-		nFrag, nAPI = 450, 250
+		nFrag, nAPI = 300, 200
 	case !thorough:
 		nFrag, nAPI = 8, 5
 	default:
@@ -445,7 +445,13 @@ func run(t *testing.T, mode string) {
 	}{{"frag", nFrag}, {"api", nAPI}} {
 		var ws []*Workload
 		for i := 0; i < lv.n; i++ {
-			ws = append(ws, Generate(seed, mode, lv.level, len(all)+i, behav.Thorough()))
+			w := Generate(seed, mode, lv.level, len(all)+i, behav.Thorough())
+			if mode == "lin" && lv.level == "frag" {
+				// the schedule is not ours to choose: every fragment-level workload (cheap) runs
+				// several times, each run giving a history of its own
+				w.Reps = behav.EnvInt("VERIF_REPS", 3)
+			}
+			ws = append(ws, w)
 		}
 		all = append(all, ws...)
 	}
